@@ -136,7 +136,8 @@ def run(model, rep):
                        'the printer are run abstractly on literal arithmetic (shared with C07) and a fold is kept only where the printed text gets strictly shorter; (SORT) bindings are processed by descending new-mention count. '
                        'Not decided: aggregate accuracy of the cost model over real modules.')
     for r, t in [('C17.K1', 'constant-kind classifiers agree and classify by type'), ('C17.GATE', 'rename only under should_rename'),
-                 ('C17.DIR', 'profitability comparisons point the right way'), ('C17.FOLD', 'folds are kept only where the printed text gets strictly shorter (enumerated)'), ('C17.SORT', 'bindings sorted by descending mention count')]:
+                 ('C17.DIR', 'profitability comparisons point the right way'), ('C17.FOLD', 'folds are kept only where the printed text gets strictly shorter (enumerated)'),
+                 ('C17.COST', 'a rename the cost model approves never makes the printed program longer (enumerated over reference forms x name lengths x use counts)'), ('C17.SORT', 'bindings sorted by descending mention count')]:
         rep.rule(r, t)
     check_classifiers(model, rep, 'C17', 'C17.K1')
     rep.floor('C17.K1', 3)
@@ -190,6 +191,10 @@ def run(model, rep):
     from .c07 import enum as fold_enum
     fold_enum(model, rep, rule='C17.FOLD', only_length=True)
     rep.floor('C17.DIR', 3)
+
+    # ---------------- COST: the model's decision against the printed size
+    from . import cost_enum
+    cost_enum.run(model, rep)
 
     # ---------------- SORT
     sb = model.func('python_minifier.rename.renamer.sorted_bindings')
